@@ -16,7 +16,7 @@
 (*  Fault # "none" replaces one operation by a faulty one: TLC must then report a violation     *)
 (*  (vacuity guards run by checks/c04.py).                                                      *)
 EXTENDS Projectors
-CONSTANTS MaxDepth, MaxN, Fault
+CONSTANTS MaxDepth, MaxN, MaxHistView, Fault
 VARIABLES task, res, st, prev, last, contrib, lastOut, depth
 
 vars == << task, res, st, prev, last, contrib, lastOut, depth >>
@@ -50,7 +50,7 @@ Windows(c) == { FullWin(g) : g \in BasicPairs(c) } \cup UNION { Range(Tiles(g)) 
 RECURSIVE SetToSeq(_)
 SetToSeq(S) == IF S = {} THEN << >> ELSE LET e == CHOOSE e \in S : TRUE IN << e >> \o SetToSeq(S \ {e})
 \* the windows the histories use: the groups of up to four basic pairs, whole and two tiles
-HistWindows(c) == UNION { { FullWin(g), Tiles(g)[1], Tiles(g)[3] } : g \in { b \in BasicPairs(c) : b[1] <= 1 /\ b[2] >= 0 } }
+HistWindows(c) == UNION { { FullWin(g), Tiles(g)[1], Tiles(g)[3] } : g \in { b \in BasicPairs(c) : b[1] <= MaxHistView /\ b[2] >= 0 } }
 
 (* ---------------------------------------------------------------------------------------- *)
 (* theorem tasks *)
@@ -106,6 +106,7 @@ FGetOutput(sys, s0) == IF Fault = "output-resets" THEN [s0 EXCEPT !.out = s0.acc
 FForwardGroup(sys, s0, w) == IF Fault = "window-off-by-one" THEN DoForwardGroup(sys, s0, [w EXCEPT !.thi = w.thi - 1]) ELSE DoForwardGroup(sys, s0, w)
 
 Sys == SysB(task.cl)
+Hist == res = "hist" /\ depth < MaxDepth
 Step(a, s2) == /\ st' = s2 /\ prev' = st /\ last' = a /\ depth' = depth + 1 /\ UNCHANGED << task, res >>
 Init ==
   \/ /\ task \in Tasks /\ res = "todo" /\ st = << >> /\ prev = << >> /\ last = NoAction /\ contrib = << >> /\ lastOut = << >> /\ depth = 0
@@ -114,21 +115,19 @@ Init ==
      /\ contrib = << >> /\ lastOut = ZeroImage(SysB(task.cl)) /\ depth = 0
 Eval == /\ res = "todo" /\ res' = IF EvalTask(task) THEN "proved" ELSE "refuted"
         /\ UNCHANGED << task, st, prev, last, contrib, lastOut, depth >>
-SetInput == \E x \in HistX : Step([kind |-> "SetInput", x |-> x], DoSetInput(Sys, st, x)) /\ UNCHANGED << contrib, lastOut >>
-ForwardSubset == \E N \in 1 .. MaxN, zero \in BOOLEAN : \E s \in 0 .. N - 1 :
+SetInput == Hist /\ \E x \in HistX : Step([kind |-> "SetInput", x |-> x], DoSetInput(Sys, st, x)) /\ UNCHANGED << contrib, lastOut >>
+ForwardSubset == Hist /\ \E N \in 1 .. MaxN, zero \in BOOLEAN : \E s \in 0 .. N - 1 :
                    Step([kind |-> "ForwardSubset", s |-> s, N |-> N, zero |-> zero], FForwardSubset(Sys, st, s, N, zero)) /\ UNCHANGED << contrib, lastOut >>
-ForwardGroup == \E w \in HistWindows(Sys.c) : Step([kind |-> "ForwardGroup", w |-> w], FForwardGroup(Sys, st, w)) /\ UNCHANGED << contrib, lastOut >>
-StartNewTarget == Step([kind |-> "StartNewTarget"], DoStartNewTarget(Sys, st)) /\ contrib' = << >> /\ UNCHANGED lastOut
-BackSubset == \E N \in 1 .. MaxN, y \in HistY(Sys) : \E s \in 0 .. N - 1 :
+ForwardGroup == Hist /\ \E w \in HistWindows(Sys.c) : Step([kind |-> "ForwardGroup", w |-> w], FForwardGroup(Sys, st, w)) /\ UNCHANGED << contrib, lastOut >>
+StartNewTarget == Hist /\ Step([kind |-> "StartNewTarget"], DoStartNewTarget(Sys, st)) /\ contrib' = << >> /\ UNCHANGED lastOut
+BackSubset == Hist /\ \E N \in 1 .. MaxN, y \in HistY(Sys) : \E s \in 0 .. N - 1 :
                 /\ Step([kind |-> "BackSubset", s |-> s, N |-> N, y |-> y], DoBackSubset(Sys, st, y, s, N))
                 /\ contrib' = Append(contrib, [T |-> SubsetBins(Sys, s, N), y |-> y]) /\ UNCHANGED lastOut
-BackGroup == \E w \in HistWindows(Sys.c), y \in HistY(Sys) :
+BackGroup == Hist /\ \E w \in HistWindows(Sys.c), y \in HistY(Sys) :
                /\ Step([kind |-> "BackGroup", w |-> w, y |-> y], DoBackGroup(Sys, st, y, w))
                /\ contrib' = Append(contrib, [T |-> WindowBins(Sys, w), y |-> y]) /\ UNCHANGED lastOut
-GetOutput == Step([kind |-> "GetOutput"], FGetOutput(Sys, st)) /\ lastOut' = st.acc /\ UNCHANGED contrib
-Next == \/ Eval
-        \/ /\ res = "hist" /\ depth < MaxDepth
-           /\ (SetInput \/ ForwardSubset \/ ForwardGroup \/ StartNewTarget \/ BackSubset \/ BackGroup \/ GetOutput)
+GetOutput == Hist /\ Step([kind |-> "GetOutput"], FGetOutput(Sys, st)) /\ lastOut' = st.acc /\ UNCHANGED contrib
+Next == Eval \/ SetInput \/ ForwardSubset \/ ForwardGroup \/ StartNewTarget \/ BackSubset \/ BackGroup \/ GetOutput
 Spec == Init /\ [][Next]_vars
 
 (* ---------------------------------------------------------------------------------------- *)
